@@ -226,7 +226,9 @@ def gen(rng, tier, shard, nshards):
         yield gen_basis_case(rng, 4, 'range')
         yield gen_basis_case(rng, 3, 'unclamped_endrep')
     # generate(): all (degree, count) pairs — enumerated
-    pairs = [(p, n, c) for p in range(1, 9) for n in range(p + 1, p + 14) for c in (True, False)]
+    # all (degree, count) pairs up to count = degree + 130 (float accumulation errors in the spacing only show at larger counts)
+    pairs = [(p, n, c) for p in range(1, 9) for n in list(range(p + 1, p + 14)) + list(range(p + 14, p + 131, 1 if tier != 'quick' else 3))
+             for c in (True, False)]
     for i, (p, n, c) in enumerate(pairs):
         if i % nshards == shard:
             yield {'kind': 'generate', 'p': p, 'n': n, 'clamped': c}
@@ -371,10 +373,11 @@ def check_generate(case, ctx):
         U = fn(p, n, clamped=clamped) if not clamped else (fn(p, n) if nm.startswith('util') else fn(p, n, clamped=True))
         ok = len(U) == n + p + 1 and knotvector.check(p, U, n) and all(a <= b for a, b in zip(U, U[1:]))
         if ok:
-            if clamped:
+            ok = U[0] == 0.0 and U[-1] == 1.0
+            if ok and clamped:
                 ok = len(set(U[:p + 1])) == 1 and len(set(U[-(p + 1):])) == 1 and \
                     all(a < b for a, b in zip(U[p:n], U[p + 1:n + 1]))
-            else:
+            elif ok:
                 ok = all(a < b for a, b in zip(U, U[1:]))
         ctx.check(ok, 'generate', '%s(%d, %d, clamped=%s) = %r: wrong length, order or end multiplicities'
                   % (nm, p, n, clamped, U), what='generate')
